@@ -248,3 +248,21 @@ for given in (False, True):
         c.ensures('given-title-or-derived', "(script_config['title'] != '' ==> result == script_config['title']) and (script_config['title'] == '' ==> result == 'Evening All On')")
     else:
         c.ensures('derived-from-the-path', "result == 'Evening All On'")
+
+
+# ---- /stop-current and /stop-all act also when the manifest has no entry of that name (the shipped manifest has none): the
+#      page that follows may fail to render, the stop itself must have been issued
+for meth, expect in (('stop_current', 'stop_current'), ('stop_all', 'stop_all')):
+    c = contract(FE, 'FrontEnd.' + meth, serves=['C20', 'C09'], unwrap=1, name='FrontEnd.%s[no manifest entry of that name]' % meth)
+    def _setup(b, case, expect=expect):
+        acts = b.ghost('acts', PyList())
+        wa = Opaque('web_app', {'get_script_control': lambda I_, o, a, k: None, 'get_path_root': lambda I_, o, a, k: '/',
+                                'get_script_list': lambda I_, o, a, k: PyList(),
+                                'stop_current': lambda I_, o, a, k: acts.items.append('stop_current'), 'stop_all': lambda I_, o, a, k: acts.items.append('stop_all'),
+                                'stop_script': lambda I_, o, a, k: acts.items.append('stop_script')})
+        lib.injection_reset(b)
+        lib.provide(b, b.module('web.i_web').ns['WebApp'], wa)
+        return {'self': front_end(b), 'web_app': wa}
+    c.setup(_setup)
+    c.raises('AttributeError', ('the-stop-was-issued-before-the-page-failed', "len(ghost('acts')) == 1 and ghost('acts')[0] == '%s'" % expect))
+    c.ensures('the-stop-was-issued', "len(ghost('acts')) == 1 and ghost('acts')[0] == '%s'" % expect)
